@@ -1,4 +1,5 @@
 import CircusProofs.Core.Pres
+import CircusProofs.Core.KStep
 import CircusProofs.Core.PresAttr
 /-!
 Generic preservation: every function of the core model preserves any invariant `I` that is
@@ -11,7 +12,7 @@ namespace Circus.Core
 /-- the writers kernel wrappers use -/
 structure LeafK (I : State → Prop) : Prop where
   emit : ∀ o, Pres I (emit o)
-  setK : ∀ k, Pres I (setK k)
+  runK : ∀ {α : Type} (f : Kernel → Kernel × α), KOp f → Pres I (runK f)
 
 /-- the writers the synchronous watcher functions use (no suspension, no spawn) -/
 structure LeafW (I : State → Prop) : Prop extends LeafK I where
@@ -62,7 +63,7 @@ structure Spec (I : State → Prop) : Prop extends SpecCore I where
 
 attribute [aesop safe apply (rule_sets := [Pres])] Pres.pure Pres.getS Pres.getK Pres.getA Pres.getW Pres.getO Pres.nowMs
 attribute [aesop safe apply (rule_sets := [Pres])] Pres.bind Pres.ite Pres.for_in
-attribute [aesop safe apply (rule_sets := [Pres])] LeafK.emit LeafK.setK Leaf.setStatus Leaf.trySetNp Leaf.spawnAdopt LeafW.popPid
+attribute [aesop safe apply (rule_sets := [Pres])] LeafK.emit Leaf.setStatus Leaf.trySetNp Leaf.spawnAdopt LeafW.popPid
   LeafW.bumpHook Leaf.setWOpt LeafW.setObjStopping LeafW.setRc LeafW.markBlocked LeafW.emitEv Leaf.freshId Leaf.pushFrame
   Leaf.removeFrame Leaf.setFrameK Leaf.armFrame Leaf.pushSleeper Leaf.armTop Leaf.setClosed Leaf.setStopping
   Leaf.setRestarting Leaf.setLoopStop Leaf.clearDone Leaf.unregister Leaf.registerNew Leaf.fireSleeper
@@ -77,6 +78,12 @@ section
 variable {I : State → Prop}
 
 /-! ### kernel wrappers -/
+theorem updK_pres (L : LeafK I) (f : Kernel → Kernel) (hf : ∀ k, KStep k (f k)) : Pres I (updK f) :=
+  L.runK _ hf
+@[aesop safe apply (rule_sets := [Pres])]
+theorem runK_kill (L : LeafK I) (pid sig : Nat) : Pres I (runK fun k => Kernel.kill k pid sig) := L.runK _ (KStep.kill pid sig)
+@[aesop safe apply (rule_sets := [Pres])]
+theorem runK_waitpid (L : LeafK I) (pid : Option Nat) : Pres I (runK fun k => Kernel.waitpid k pid) := L.runK _ (KStep.waitpid pid)
 @[aesop safe apply (rule_sets := [Pres])]
 theorem kKill_pres (L : LeafK I) (pid sig : Nat) (via : String) : Pres I (kKill pid sig via) := by
   unfold kKill; pres
@@ -84,17 +91,11 @@ theorem kKill_pres (L : LeafK I) (pid sig : Nat) (via : String) : Pres I (kKill 
 theorem kWaitpid_pres (L : LeafK I) (pid : Option Nat) : Pres I (kWaitpid pid) := by
   unfold kWaitpid; pres
 @[aesop safe apply (rule_sets := [Pres])]
-theorem kStateOf_pres (L : LeafK I) (pid : Nat) : Pres I (kStateOf pid) := by
-  unfold kStateOf; pres
+theorem kStateOf_pres (L : LeafK I) (pid : Nat) : Pres I (kStateOf pid) := L.runK _ (KStep.stateOf pid)
 @[aesop safe apply (rule_sets := [Pres])]
-theorem kChildren_pres (L : LeafK I) (pid : Nat) (r : Bool) : Pres I (kChildren pid r) := by
-  unfold kChildren; pres
+theorem kChildren_pres (L : LeafK I) (pid : Nat) (r : Bool) : Pres I (kChildren pid r) := L.runK _ (KStep.children pid r)
 @[aesop safe apply (rule_sets := [Pres])]
-theorem kSpawn_pres (L : LeafK I) : Pres I kSpawn := by
-  unfold kSpawn; pres
-@[aesop safe apply (rule_sets := [Pres])]
-theorem kSleep_pres (L : LeafK I) (ms : Nat) : Pres I (kSleep ms) := by
-  unfold kSleep; pres
+theorem kSleep_pres (L : LeafK I) (ms : Nat) : Pres I (kSleep ms) := updK_pres L _ (fun k => KStep.sleep k ms)
 
 /-! ### watcher.py, synchronous part -/
 @[aesop safe apply (rule_sets := [Pres])]
@@ -453,8 +454,11 @@ theorem stepOp_pres (S : Spec I) (op : Op) : Pres I (stepOp op) := by
   have hh := handleMessage_pres S
   have hq := sigQuit_pres S
   have hsc := syncCoroutine_pres S.toSpecCore
+  have hadv : ∀ ms ds, Pres I (updK fun k => k.advance ms ds) := fun ms ds => updK_pres L.toLeafK _ (fun k => KStep.advance k ms ds)
+  have hdie : ∀ p st, Pres I (updK fun k => k.die p st) := fun p st => updK_pres L.toLeafK _ (fun k => KStep.die k p st)
+  have hflt : ∀ n p st, Pres I (updK fun k => k.addFault n p st) := fun n p st => updK_pres L.toLeafK _ (fun k => KStep.addFault k n p st)
   cases op <;> simp only [stepOp] <;>
-  aesop (add safe apply hadd, safe apply he, safe apply hh, safe apply hq, safe apply hsc) (rule_sets := [Pres])
+  aesop (add safe apply hadd, safe apply he, safe apply hh, safe apply hq, safe apply hsc, safe apply hadv, safe apply hdie, safe apply hflt) (rule_sets := [Pres])
     (config := { terminal := true, useDefaultSimpSet := false, useSimpAll := false, maxRuleApplications := 3000 })
 theorem stepTail_pres (S : Spec I) : Pres I stepTail := by
   have L := S.toLeaf
@@ -466,8 +470,9 @@ theorem stepM_pres (S : Spec I) (op : Op) : Pres I (stepM op) := by
   have L := S.toLeaf
   have h1 := stepOp_pres S
   have h2 := stepTail_pres S
+  have h3 : Pres I (updK Kernel.beginStep) := updK_pres L.toLeafK _ KStep.beginStep
   unfold stepM
-  aesop (add safe apply h1, safe apply h2) (rule_sets := [Pres])
+  aesop (add safe apply h1, safe apply h2, safe apply h3) (rule_sets := [Pres])
     (config := { terminal := true, useDefaultSimpSet := false, useSimpAll := false, maxRuleApplications := 3000 })
 
 /-- an invariant with a `Spec` holds along every run -/
